@@ -4,6 +4,7 @@ Soundness of the stress-trace monitors (V-tie of C29 and C58): every trace a mon
 satisfies the property it stands for, at every prefix.
 -/
 namespace NetVerif.Proofs.MonitorSound
+set_option linter.unusedSimpArgs false
 open NetVerif.Model.ChanSemMonitor
 
 /-! ### gate -/
@@ -72,6 +73,36 @@ theorem gate_monitor_sound (b : Bool) (es : List GEv) (m' : GMon)
   rw [this]
   cases m1.holder <;> simp
 
+/-! ### generic: lookup in association lists -/
+
+theorem lookup_filter_ne {α β : Type} [DecidableEq α] (a c : α) (l : List (α × β)) :
+    lookup a (l.filter (fun x => x.1 ≠ c)) = if a = c then none else lookup a l := by
+  induction l with
+  | nil => simp [lookup]
+  | cons x xs ih =>
+    obtain ⟨x1, x2⟩ := x
+    by_cases hx : x1 = c
+    · subst hx
+      simp only [List.filter, lookup, ne_eq, not_true_eq_false, decide_false]
+      rw [ih]
+      by_cases ha : a = x1
+      · simp [ha]
+      · have : ¬ x1 = a := fun h => ha h.symm
+        simp [ha, this]
+    · have hd : decide (x1 ≠ c) = true := by simp [hx]
+      simp only [List.filter, hd, lookup]
+      rw [ih]
+      by_cases ha : a = c
+      · subst ha
+        simp [hx]
+      · simp [ha]
+
+theorem lookup_filter_ne' {α β : Type} [DecidableEq α] (a c : α) (l : List (α × β)) :
+    lookup a (l.filter (fun x => !decide (x.1 = c))) = if a = c then none else lookup a l := by
+  have : (fun x : α × β => !decide (x.1 = c)) = (fun x => decide (x.1 ≠ c)) := by
+    funext x; simp
+  rw [this]; exact lookup_filter_ne a c l
+
 /-! ### LimitListener -/
 
 theorem lmon_run_open (m m' : LMon) (es : List LEv) (h : m.run es = .ok m') :
@@ -114,7 +145,9 @@ theorem lmon_run_open (m m' : LMon) (es : List LEv) (h : m.run es = .ok m') :
           simp only [LMon.step] at hs
           split at hs
           · simp at hs
-          · simp at hs; subst hs; simp [openOf]
+          · split at hs
+            · simp at hs
+            · simp at hs; subst hs; simp [openOf]
         | aerr a => simp [LMon.step] at hs; subst hs; simp [openOf]
         | lret => simp [LMon.step] at hs; subst hs; simp [openOf]
         | other => simp [LMon.step] at hs; subst hs; simp [openOf]
@@ -130,11 +163,10 @@ theorem lmon_run_append (m m' : LMon) (a b : List LEv) (h : m.run (a ++ b) = .ok
     simp only [List.cons_append, LMon.run] at h ⊢
     split at h
     · rename_i m1 hs
-
       exact ih m1 h
     · simp at h
 
-/-- **Listener monitor soundness**: in every prefix of an accepted trace the number of
+/-- **Listener monitor soundness (limit)**: in every prefix of an accepted trace the number of
 connections handed out by the wrapped listener and not yet closed is at most the limit. -/
 theorem listener_monitor_sound (n : Nat) (es : List LEv) (m' : LMon)
     (h : ({ limit := n } : LMon).run es = .ok m') :
@@ -146,103 +178,400 @@ theorem listener_monitor_sound (n : Nat) (es : List LEv) (m' : LMon)
   simp at k1 k2 k3
   rw [k1, ← k2]; exact k3
 
+/-- `x` is the trace before acceptor `a`'s pending Accept invocation in `pre`. -/
+def PendingAccept (pre : List LEv) (a : Nat) (x : List LEv) : Prop :=
+  ∃ y, pre = x ++ LEv.ainv a :: y ∧ ∀ e ∈ y, e ≠ LEv.ainv a ∧ e ≠ LEv.acc a ∧ e ≠ LEv.aerr a
+
+/-- Representation invariant of the listener monitor. -/
+def LRep (m : LMon) (pre : List LEv) : Prop :=
+  m.hist = pre ∧ ∀ a x, lookup a m.ainv = some x → PendingAccept pre a x
+
+theorem pendingAccept_snoc {pre : List LEv} {a : Nat} {x : List LEv} {e : LEv}
+    (h : PendingAccept pre a x) (h1 : e ≠ .ainv a) (h2 : e ≠ .acc a) (h3 : e ≠ .aerr a) :
+    PendingAccept (pre ++ [e]) a x := by
+  obtain ⟨y, rfl, hy⟩ := h
+  refine ⟨y ++ [e], by simp, ?_⟩
+  intro e' he'
+  simp at he'
+  rcases he' with he' | rfl
+  · exact hy e' he'
+  · exact ⟨h1, h2, h3⟩
+
+/-- Accept-after-close clause for one event. -/
+def LOK (pre : List LEv) : LEv → Prop
+  | .acc a => ∃ x, PendingAccept pre a x ∧ LEv.lret ∉ x
+  | _ => True
+
+theorem lmon_step_rep (m m' : LMon) (pre : List LEv) (e : LEv) (hr : LRep m pre)
+    (h : m.step e = .ok m') : LOK pre e ∧ LRep m' (pre ++ [e]) := by
+  obtain ⟨hh, hl⟩ := hr
+  have keep : ∀ (b : Nat), (∀ a, e ≠ .ainv a) → (∀ a, e ≠ .acc a) → (∀ a, e ≠ .aerr a) →
+      ∀ a x, lookup a m.ainv = some x → PendingAccept (pre ++ [e]) a x :=
+    fun _ h1 h2 h3 a x hx => pendingAccept_snoc (hl a x hx) (h1 a) (h2 a) (h3 a)
+  have filt : ∀ (a0 : Nat), (e = .acc a0 ∨ e = .aerr a0) →
+      ∀ a x, lookup a (m.ainv.filter (fun x => !decide (x.1 = a0))) = some x → PendingAccept (pre ++ [e]) a x := by
+    intro a0 he a x hx
+    rw [lookup_filter_ne'] at hx
+    split at hx
+    · simp at hx
+    · rename_i hne
+      refine pendingAccept_snoc (hl a x hx) ?_ ?_ ?_ <;>
+        (rcases he with rfl | rfl <;> simp <;> first | exact fun h => hne h.symm | skip)
+  cases e with
+  | iacc id =>
+    simp only [LMon.step] at h
+    split at h
+    · simp at h
+    · split at h
+      · simp at h
+      · simp at h; subst h
+        exact ⟨trivial, by simp [hh], keep 0 (by simp) (by simp) (by simp)⟩
+  | iclose id =>
+    simp only [LMon.step] at h
+    split at h
+    · simp at h; subst h
+      exact ⟨trivial, by simp [hh], keep 0 (by simp) (by simp) (by simp)⟩
+    · split at h
+      · simp at h; subst h
+        exact ⟨trivial, by simp [hh], keep 0 (by simp) (by simp) (by simp)⟩
+      · simp at h
+  | ainv a0 =>
+    simp [LMon.step] at h; subst h
+    refine ⟨trivial, by simp [hh], ?_⟩
+    intro a x hx
+    simp only [lookup] at hx
+    split at hx
+    · rename_i ha
+      simp at hx; subst hx; subst ha
+      exact ⟨[], by simp [hh], by simp⟩
+    · rename_i hne
+      rw [lookup_filter_ne'] at hx
+      split at hx
+      · simp at hx
+      · refine pendingAccept_snoc (hl a x hx) ?_ ?_ ?_ <;> simp
+        exact fun h => hne h
+  | acc a0 =>
+    simp only [LMon.step] at h
+    split at h
+    · simp at h
+    · rename_i x0 hx0
+      split at h
+      · simp at h
+      · rename_i hnl
+        simp at h; subst h
+        exact ⟨⟨x0, hl a0 x0 hx0, hnl⟩, by simp [hh], filt a0 (Or.inl rfl)⟩
+  | aerr a0 =>
+    simp [LMon.step] at h; subst h
+    exact ⟨trivial, by simp [hh], filt a0 (Or.inr rfl)⟩
+  | lret =>
+    simp [LMon.step] at h; subst h
+    exact ⟨trivial, by simp [hh], keep 0 (by simp) (by simp) (by simp)⟩
+  | other =>
+    simp [LMon.step] at h; subst h
+    exact ⟨trivial, by simp [hh], keep 0 (by simp) (by simp) (by simp)⟩
+
+theorem lmon_run_ok (m m' : LMon) (pre0 es : List LEv) (hr : LRep m pre0) (h : m.run es = .ok m') :
+    ∀ pre e suf, es = pre ++ e :: suf → LOK (pre0 ++ pre) e := by
+  induction es generalizing m pre0 with
+  | nil => intro pre e suf he; simp at he
+  | cons e0 es ih =>
+    simp only [LMon.run] at h
+    split at h
+    · rename_i m1 hs
+      obtain ⟨hok, hr1⟩ := lmon_step_rep m m1 pre0 e0 hr hs
+      intro pre e suf he
+      cases pre with
+      | nil => simp at he; obtain ⟨rfl, rfl⟩ := he; simpa using hok
+      | cons p ps =>
+        simp at he; obtain ⟨rfl, rfl⟩ := he
+        have := ih m1 (pre0 ++ [e0]) hr1 h ps e suf rfl
+        simpa using this
+    · simp at h
+
+/-- **Listener monitor soundness (Accept after Close)**: in an accepted trace, whenever an
+acceptor gets a connection, its Accept call had been invoked (`x` = the trace before that
+invocation) before any `Close()` had returned. -/
+theorem listener_monitor_accept_after_close (n : Nat) (es : List LEv) (m' : LMon)
+    (h : ({ limit := n } : LMon).run es = .ok m') :
+    ∀ pre a suf, es = pre ++ LEv.acc a :: suf → ∃ x, PendingAccept pre a x ∧ LEv.lret ∉ x := by
+  intro pre a suf he
+  have := lmon_run_ok { limit := n } m' [] es ⟨rfl, by intro a x hx; simp [lookup] at hx⟩ h pre _ suf he
+  simpa [LOK] using this
+
 /-! ### queue -/
 
-theorem lookup_isSome_of_mem {α β : Type} [DecidableEq α] (a : α) (l : List (α × β))
-    (h : a ∈ l.map (·.1)) : (lookup a l).isSome = true := by
-  induction l with
-  | nil => simp at h
-  | cons x xs ih =>
-    obtain ⟨x1, x2⟩ := x
-    simp only [lookup]
-    split
-    · rfl
-    · rename_i hne
-      simp at h
-      rcases h with h | h
-      · exact absurd h.symm hne
-      · exact ih (by simpa using h)
+/-- `a` is the trace before consumer `c`'s pending `get` invocation in `pre`. -/
+def PendingGet (pre : List QEv) (c : Nat) (a : List QEv) : Prop :=
+  ∃ b, pre = a ++ QEv.ginv c :: b ∧ ∀ e ∈ b, evConsumer e ≠ some c
 
-/-- What one accepted event does to the delivered list. -/
-theorem qmon_step_deliv (m m' : QMon) (e : QEv) (h : m.step e = .ok m') :
-    (m'.deliv.map (·.1) = m.deliv.map (·.1) ∧ deliveredOf [e] = []) ∨
-    (∃ c p k, e = .gitem c p k ∧ m'.deliv.map (·.1) = (p, k) :: m.deliv.map (·.1) ∧
-      (p, k) ∉ m.deliv.map (·.1)) := by
+/-- `a` is the trace before the invocation of `put (p,k)` in `pre`. -/
+def PutInvokedAt (pre : List QEv) (p k : Nat) (a : List QEv) : Prop :=
+  ∃ b, pre = a ++ QEv.pinv p k :: b
+
+/-- The property clause each accepted event stands for (`pre` = the trace before it). -/
+def QOK (pre : List QEv) : QEv → Prop
+  | .pinv p k => (p, k) ∉ putInvokedOf pre
+  /- a put that was accepted had been invoked before close returned -/
+  | .pret p k true => ∃ a, PutInvokedAt pre p k a ∧ QEv.cret ∉ a
+  /- a put is rejected only once close was called, and a rejected item is never delivered -/
+  | .pret p k false => QEv.cinv ∈ pre ∧ (p, k) ∉ deliveredOf pre
+  /- a delivered item was put (no phantom), not delivered before (exactly once), not rejected;
+     FIFO in real time: no later item of the same producer was delivered before this get was even
+     invoked; and the get was invoked before close returned -/
+  | .gitem c p k => (p, k) ∈ putInvokedOf pre ∧ (p, k) ∉ deliveredOf pre ∧ (p, k) ∉ rejectedOf pre ∧
+      ∃ a, PendingGet pre c a ∧ (∀ k', (p, k') ∈ deliveredOf a → ¬ k < k') ∧ QEv.cret ∉ a
+  /- the closed error is reported only once close was called -/
+  | .gclosed c => QEv.cinv ∈ pre ∧ ∃ a, PendingGet pre c a
+  | .gctx c => ∃ a, PendingGet pre c a
+  | .cret => QEv.cinv ∈ pre
+  /- drained runs lose nothing: every accepted item was delivered -/
+  | .fin true => ∀ it ∈ acceptedOf pre, it ∈ deliveredOf pre
+  | _ => True
+
+def QRep (m : QMon) (pre : List QEv) : Prop :=
+  m.hist = pre ∧ (∀ c a, lookup c m.ginv = some a → PendingGet pre c a) ∧
+  (∀ p k a, lookup (p, k) m.pinv = some a → PutInvokedAt pre p k a)
+
+theorem pendingGet_snoc {pre : List QEv} {c : Nat} {a : List QEv} {e : QEv}
+    (h : PendingGet pre c a) (he : evConsumer e ≠ some c) : PendingGet (pre ++ [e]) c a := by
+  obtain ⟨b, rfl, hb⟩ := h
+  refine ⟨b ++ [e], by simp, ?_⟩
+  intro e' he'
+  simp at he'
+  rcases he' with he' | rfl
+  · exact hb e' he'
+  · exact he
+
+theorem putInvokedAt_snoc {pre : List QEv} {p k : Nat} {a : List QEv} (e : QEv)
+    (h : PutInvokedAt pre p k a) : PutInvokedAt (pre ++ [e]) p k a := by
+  obtain ⟨b, rfl⟩ := h
+  exact ⟨b ++ [e], by simp⟩
+
+/-- The bookkeeping of `QMon.step` keeps the representation invariant. -/
+theorem qrep_next (m : QMon) (pre : List QEv) (e : QEv) (hr : QRep m pre) :
+    QRep { hist := m.hist ++ [e],
+           pinv := (match e with
+             | .pinv p k => ((p, k), m.hist) :: m.pinv
+             | _ => m.pinv),
+           ginv := (match evConsumer e with
+             | some c =>
+               let f := m.ginv.filter (fun x => x.1 ≠ c)
+               (match e with
+                | .ginv _ => (c, m.hist) :: f
+                | _ => f)
+             | none => m.ginv) } (pre ++ [e]) := by
+  obtain ⟨hh, hg, hp⟩ := hr
+  refine ⟨by simp [hh], ?_, ?_⟩
+  · intro c a hl
+    simp only at hl
+    cases hc : evConsumer e with
+    | none =>
+      rw [hc] at hl
+      exact pendingGet_snoc (hg c a hl) (by rw [hc]; simp)
+    | some c0 =>
+      rw [hc] at hl
+      simp only at hl
+      have hfil : ∀ a', lookup c (m.ginv.filter (fun x => x.1 ≠ c0)) = some a' →
+          PendingGet (pre ++ [e]) c a' := by
+        intro a' hl'
+        rw [lookup_filter_ne] at hl'
+        split at hl'
+        · simp at hl'
+        · rename_i hne
+          exact pendingGet_snoc (hg c a' hl') (by rw [hc]; simp; exact fun h => hne h.symm)
+      cases e with
+      | ginv c1 =>
+        simp [evConsumer] at hc; subst hc
+        simp only [lookup] at hl
+        split at hl
+        · rename_i hcc
+          simp at hl; subst hl; subst hcc
+          exact ⟨[], by simp [hh], by simp⟩
+        · exact hfil a hl
+      | gitem c1 p k => exact hfil a hl
+      | gclosed c1 => exact hfil a hl
+      | gctx c1 => exact hfil a hl
+      | pinv p k => simp [evConsumer] at hc
+      | pret p k ok => simp [evConsumer] at hc
+      | cinv => simp [evConsumer] at hc
+      | cret => simp [evConsumer] at hc
+      | fin d => simp [evConsumer] at hc
+  · intro p k a hl
+    simp only at hl
+    cases e with
+    | pinv p1 k1 =>
+      simp only [lookup] at hl
+      split at hl
+      · rename_i heq
+        simp at hl; subst hl
+        simp at heq; obtain ⟨rfl, rfl⟩ := heq
+        exact ⟨[], by simp [hh]⟩
+      · exact putInvokedAt_snoc _ (hp p k a hl)
+    | pret _ _ _ => exact putInvokedAt_snoc _ (hp p k a hl)
+    | ginv _ => exact putInvokedAt_snoc _ (hp p k a hl)
+    | gitem _ _ _ => exact putInvokedAt_snoc _ (hp p k a hl)
+    | gclosed _ => exact putInvokedAt_snoc _ (hp p k a hl)
+    | gctx _ => exact putInvokedAt_snoc _ (hp p k a hl)
+    | cinv => exact putInvokedAt_snoc _ (hp p k a hl)
+    | cret => exact putInvokedAt_snoc _ (hp p k a hl)
+    | fin _ => exact putInvokedAt_snoc _ (hp p k a hl)
+
+theorem qmon_check_ok (m : QMon) (pre : List QEv) (e : QEv) (hr : QRep m pre)
+    (hc : m.check e = none) : QOK pre e := by
+  obtain ⟨hh, hg, hp⟩ := hr
   cases e with
-  | gitem c p k =>
-    right
-    refine ⟨c, p, k, rfl, ?_⟩
-    simp only [QMon.step] at h
-    split at h
-    · simp at h
-    · repeat' split at h
-      all_goals first | (simp at h; done) | skip
-      all_goals (
-        simp at h; subst h
-        refine ⟨rfl, ?_⟩
-        intro hmem
-        have := lookup_isSome_of_mem (p, k) m.deliv hmem
-        simp_all)
   | pinv p k =>
-    left; simp only [QMon.step] at h
-    split at h
-    · simp at h
-    · simp at h; subst h; simp [deliveredOf]
+    simp only [QMon.check] at hc
+    split at hc
+    · simp at hc
+    · rename_i hn; rw [hh] at hn; exact hn
   | pret p k ok =>
-    left; simp only [QMon.step] at h
-    repeat' split at h
-    all_goals first | (simp at h; done) | (simp at h; subst h; simp [deliveredOf])
-  | ginv c => left; simp [QMon.step] at h; subst h; simp [deliveredOf]
+    simp only [QMon.check] at hc
+    split at hc
+    · simp at hc
+    · rename_i a ha
+      cases ok with
+      | true =>
+        simp at hc
+        exact ⟨a, hp p k a ha, hc⟩
+      | false =>
+        simp at hc
+        rw [hh] at hc
+        by_cases h1 : QEv.cinv ∈ pre <;> by_cases h2 : (p, k) ∈ deliveredOf pre <;> simp [h1, h2] at hc
+        exact ⟨h1, h2⟩
+  | ginv c => trivial
+  | gitem c p k =>
+    simp only [QMon.check] at hc
+    split at hc
+    · simp at hc
+    · rename_i a ha
+      repeat' split at hc
+      all_goals first | (simp at hc; done) | skip
+      rename_i h1 h2 h3 h4 h5
+      rw [hh] at h1 h2 h3
+      refine ⟨by simpa using h1, h2, h3, a, hg c a ha, ?_, h5⟩
+      intro k' hk' hlt
+      apply h4
+      simp only [List.any_eq_true]
+      exact ⟨(p, k'), hk', by simp [hlt]⟩
   | gclosed c =>
-    left; simp only [QMon.step] at h
-    repeat' split at h
-    all_goals first | (simp at h; done) | (simp at h; subst h; simp [deliveredOf])
+    simp only [QMon.check] at hc
+    repeat' split at hc
+    all_goals first | (simp at hc; done) | skip
+    rename_i h1 h2
+    rw [hh] at h2
+    cases hl : lookup c m.ginv with
+    | none => simp [hl] at h1
+    | some a => exact ⟨by simpa using h2, a, hg c a hl⟩
   | gctx c =>
-    left; simp only [QMon.step] at h
-    repeat' split at h
-    all_goals first | (simp at h; done) | (simp at h; subst h; simp [deliveredOf])
-  | cinv => left; simp [QMon.step] at h; subst h; simp [deliveredOf]
+    simp only [QMon.check] at hc
+    split at hc
+    · simp at hc
+    · rename_i h1
+      cases hl : lookup c m.ginv with
+      | none => simp [hl] at h1
+      | some a => exact ⟨a, hg c a hl⟩
+  | cinv => trivial
   | cret =>
-    left; simp only [QMon.step] at h
-    repeat' split at h
-    all_goals first | (simp at h; done) | (simp at h; subst h; simp [deliveredOf])
+    simp only [QMon.check] at hc
+    split at hc
+    · simp at hc
+    · rename_i h1; rw [hh] at h1; show QEv.cinv ∈ pre; simpa using h1
   | fin d =>
-    left; simp only [QMon.step] at h
-    repeat' split at h
-    all_goals first | (simp at h; done) | (simp at h; subst h; simp [deliveredOf])
+    cases d with
+    | false => trivial
+    | true =>
+      simp only [QMon.check] at hc
+      split at hc
+      · simp at hc
+      · rename_i h1
+        rw [hh] at h1
+        simp at h1
+        intro it hit
+        exact h1 it.1 it.2 hit
 
-theorem deliveredOf_cons (e : QEv) (es : List QEv) :
-    deliveredOf (e :: es) = deliveredOf [e] ++ deliveredOf es := by
-  cases e <;> simp [deliveredOf]
+theorem qmon_step_rep (m m' : QMon) (pre : List QEv) (e : QEv) (hr : QRep m pre)
+    (h : m.step e = .ok m') : QOK pre e ∧ QRep m' (pre ++ [e]) := by
+  simp only [QMon.step] at h
+  split at h
+  · simp at h
+  · rename_i hc
+    cases h
+    exact ⟨qmon_check_ok m pre e hr hc, qrep_next m pre e hr⟩
 
-theorem qmon_run_deliv (m m' : QMon) (es : List QEv) (h : m.run es = .ok m')
-    (hn : (m.deliv.map (·.1)).Nodup) :
-    m'.deliv.map (·.1) = (deliveredOf es).reverse ++ m.deliv.map (·.1) ∧ (m'.deliv.map (·.1)).Nodup := by
-  induction es generalizing m with
-  | nil => simp [QMon.run] at h; subst h; simp [deliveredOf, hn]
-  | cons e es ih =>
+theorem qmon_run_ok (m m' : QMon) (pre0 es : List QEv) (hr : QRep m pre0) (h : m.run es = .ok m') :
+    ∀ pre e suf, es = pre ++ e :: suf → QOK (pre0 ++ pre) e := by
+  induction es generalizing m pre0 with
+  | nil => intro pre e suf he; simp at he
+  | cons e0 es ih =>
     simp only [QMon.run] at h
     split at h
     · rename_i m1 hs
-      rcases qmon_step_deliv m m1 e hs with ⟨h1, h2⟩ | ⟨c, p, k, rfl, h1, h2⟩
-      · obtain ⟨i1, i2⟩ := ih m1 h (by rw [h1]; exact hn)
-        refine ⟨?_, i2⟩
-        rw [i1, h1, deliveredOf_cons, h2]; simp
-      · obtain ⟨i1, i2⟩ := ih m1 h (by rw [h1]; exact List.nodup_cons.mpr ⟨h2, hn⟩)
-        refine ⟨?_, i2⟩
-        rw [i1, h1]; simp [deliveredOf]
+      obtain ⟨hok, hr1⟩ := qmon_step_rep m m1 pre0 e0 hr hs
+      intro pre e suf he
+      cases pre with
+      | nil => simp at he; obtain ⟨rfl, rfl⟩ := he; simpa using hok
+      | cons p ps =>
+        simp at he; obtain ⟨rfl, rfl⟩ := he
+        have := ih m1 (pre0 ++ [e0]) hr1 h ps e suf rfl
+        simpa using this
     · simp at h
 
-/-- **Queue monitor soundness (exactly-once part)**: in an accepted trace no item is delivered
-twice. (The monitor additionally rejects phantom items, lost items in drained runs, real-time
-FIFO inversions per producer and deliveries / accepted puts after close returned — see
-`QMon.step`.) -/
+/-- **Queue monitor soundness**: every event of an accepted trace satisfies its property clause
+`QOK` with respect to the trace before it: no phantom, duplicated or rejected item is delivered;
+real-time FIFO per producer; nothing is delivered by a get invoked after close returned; nothing
+is accepted by a put invoked after close returned; rejections and closed errors only after close
+was called; drained runs lose no accepted item. -/
+theorem queue_monitor_sound (es : List QEv) (m' : QMon) (h : ({} : QMon).run es = .ok m') :
+    ∀ pre e suf, es = pre ++ e :: suf → QOK pre e := by
+  intro pre e suf he
+  have := qmon_run_ok {} m' [] es
+    ⟨rfl, by intro c a hl; simp [lookup] at hl, by intro p k a hl; simp [lookup] at hl⟩ h pre e suf he
+  simpa using this
+
+theorem deliveredOf_append (a b : List QEv) : deliveredOf (a ++ b) = deliveredOf a ++ deliveredOf b := by
+  induction a with
+  | nil => rfl
+  | cons e es ih => cases e <;> simp [deliveredOf, ih]
+
+/-- Corollary (exactly-once part): in an accepted trace no item is delivered twice. -/
 theorem queue_monitor_no_duplicates (es : List QEv) (m' : QMon)
     (h : ({} : QMon).run es = .ok m') : (deliveredOf es).Nodup := by
-  obtain ⟨h1, h2⟩ := qmon_run_deliv {} m' es h (by simp)
-  rw [h1] at h2
-  have h3 : (deliveredOf es).reverse.Nodup := by simpa using h2
-  unfold List.Nodup at *
-  exact (List.pairwise_reverse.mp h3).imp (fun hab => Ne.symm hab)
+  have hs := queue_monitor_sound es m' h
+  -- induction over prefixes, from the right
+  suffices H : ∀ n, (deliveredOf (es.take n)).Nodup by
+    have := H es.length; simpa using this
+  intro n
+  induction n with
+  | zero => simp [deliveredOf]
+  | succ n ih =>
+    by_cases hn : n < es.length
+    · have hsplit : es = es.take n ++ es[n] :: es.drop (n + 1) := by
+        simp
+      rw [List.take_add_one, List.getElem?_eq_getElem hn]
+      simp only [Option.toList]
+      rw [deliveredOf_append]
+      have hok := hs (es.take n) es[n] (es.drop (n + 1)) hsplit
+      cases he : es[n] with
+      | gitem c p k =>
+        rw [he] at hok
+        simp only [deliveredOf, List.append_nil]
+        rw [List.nodup_append]
+        refine ⟨ih, by simp, ?_⟩
+        intro x hx y hy
+        simp at hy; subst hy
+        intro hxy; subst hxy
+        exact hok.2.1 hx
+      | pinv _ _ => simpa [deliveredOf] using ih
+      | pret _ _ _ => simpa [deliveredOf] using ih
+      | ginv _ => simpa [deliveredOf] using ih
+      | gclosed _ => simpa [deliveredOf] using ih
+      | gctx _ => simpa [deliveredOf] using ih
+      | cinv => simpa [deliveredOf] using ih
+      | cret => simpa [deliveredOf] using ih
+      | fin _ => simpa [deliveredOf] using ih
+    · have : es.take (n + 1) = es.take n := by
+        rw [List.take_of_length_le (by omega), List.take_of_length_le (by omega)]
+      rw [this]; exact ih
 
 end NetVerif.Proofs.MonitorSound
